@@ -48,6 +48,14 @@ def gen(rng, tier):
             b = iu.ref_wire(m, cfg, codec, False)
         except (iu.Refused, UnicodeEncodeError):
             continue
+        if i % 5 == 3:
+            # the processor COMBINED with a numeric python type on the same element (decoding only: the bytes above were laid
+            # out from the text): the prefix comes back as a number, the masked form is not a number and is refused - in
+            # neither case may the clear PAN come back
+            cfg = dict(cfg)
+            cfg[k] = dict(cfg[k], field_python_type=rng.choice(['int', 'long', 'decimal']))
+            cases.append({'kind': 'decode', 'cfg': cfg, 'codec': codec, 'bytes': b.hex(), 'pan': pan, 'bit': k, 'proc': proc, 'typed': True})
+            continue
         cases.append({'kind': 'decode', 'cfg': cfg, 'codec': codec, 'bytes': b.hex(), 'pan': pan, 'bit': k, 'proc': proc})
         if i % 4 == 0:
             # the same message decoded in one process under the configuration with the processor switched in place
@@ -137,6 +145,24 @@ def judge(case, io_, mo):
             if got != want:
                 return [{'kind': 'oracle', 'sig': 'stale-configuration-' + mode, 'msg': 'after switching the processor to %s (%s) the element decodes to %r, expected %r' % (proc, mode, got, want)}]
         return []
+    if case.get('typed'):
+        # refused with the library error (a masked value is not a number) or returned as the number of the prefix
+        pan, key = case['pan'], 'DE' + case['bit']
+        if o.startswith('OK '):
+            d = iu.dict_of_text(o[3:])
+            v = d.get(key)
+            clear = [k for k, x in d.items() if not isinstance(x, (bytes, bytearray)) and str(x).lstrip('0') == pan.lstrip('0') and len(pan) > 10]
+            if clear:
+                ps.append({'kind': 'oracle', 'sig': 'clear-pan-in-dictionary', 'msg': 'the clear PAN appears under %s (numeric element with %s)' % (clear, case['proc'])})
+            elif case['proc'] == 'PAN-PREFIX' and str(v).lstrip('0') != pan[:9].lstrip('0'):
+                ps.append({'kind': 'oracle', 'sig': 'not-masked-PAN-PREFIX', 'msg': '%s = %r, expected the number %s' % (key, v, pan[:9])})
+        elif o != 'RAISE DATAERR':
+            ps.append({'kind': 'oracle', 'sig': 'decode-failed', 'msg': 'decoding failed with %s' % o})
+        if mo is not None and not ps and not mo[0].startswith('UNMODELLED'):
+            same = (mo[0] == o) if not o.startswith('OK ') else (mo[0].startswith('OK ') and iu.canon_entries(mo[0][3:], drop_other=True) == iu.canon_entries(o[3:], drop_other=True))
+            if not same:
+                ps.append({'kind': 'corr', 'sig': 'loads', 'msg': 'loads differs from model: %s vs %s' % (o[:80], mo[0][:80])})
+        return ps
     if not o.startswith('OK '):
         return [{'kind': 'oracle', 'sig': 'decode-failed', 'msg': 'decoding a well-formed message failed: %s' % o}]
     d = iu.dict_of_text(o[3:])
